@@ -39,4 +39,40 @@ pub broadcast proof fn lemma_render_push(out: Seq<Seq<char>>, d: Seq<char>)
     assert(out.push(d).drop_last() =~= out);
 }
 
+// ---- imports of a merged file (C05, C13): the union of the import lines, rendered in ascending order ----
+// names of one import line as the code iterates them
+pub open spec fn name_set<'a>(names: Seq<&'a str>) -> Set<&'a str> { names.to_set() }
+// path -> set of names after the first n lines (lines[k] = (path, names of that line))
+pub open spec fn union_map<'a>(paths: Seq<&'a str>, names: Seq<Seq<&'a str>>, n: int) -> Map<&'a str, Set<&'a str>>
+    decreases n
+{
+    if n <= 0 { Map::<&'a str, Set<&'a str>>::empty() }
+    else {
+        let m = union_map(paths, names, n - 1);
+        let p = paths[n - 1];
+        let old = if m.contains_key(p) { m[p] } else { Set::<&'a str>::empty() };
+        m.insert(p, old.union(name_set(names[n - 1])))
+    }
+}
+// `A, B, C`: every name followed by `, ` except the last (prefix of j names out of the whole listing)
+pub open spec fn join_prefix<'a>(names: Seq<&'a str>, j: int) -> Seq<char>
+    decreases j
+{
+    if j <= 0 { Seq::<char>::empty() }
+    else { join_prefix(names, j - 1) + names[j - 1]@ + (if j < names.len() { ", "@ } else { Seq::<char>::empty() }) }
+}
+pub open spec fn import_line<'a>(path: &'a str, names: Seq<&'a str>) -> Seq<char> {
+    "import type { "@ + join_prefix(names, names.len() as int) + " } from \""@ + path@ + "\";\n"@
+}
+// the first n entries of the map in ascending key order, each with its names in ascending order
+pub open spec fn render_entries<'a>(m: Map<&'a str, Set<&'a str>>, keys: Seq<&'a str>, n: int) -> Seq<char>
+    decreases n
+{
+    if n <= 0 { Seq::<char>::empty() }
+    else { render_entries(m, keys, n - 1) + import_line(keys[n - 1], canon(m[keys[n - 1]])) }
+}
+pub open spec fn render_imports<'a>(m: Map<&'a str, Set<&'a str>>) -> Seq<char> {
+    render_entries(m, canon(m.dom()), canon(m.dom()).len() as int)
+}
+
 } // verus!
